@@ -1,24 +1,39 @@
 // C06 harness: runs RecInt operations of /repo's current headers on cases read from stdin.
 // line:  <variant> <K> <thr> <hex args...>      output: result tokens in hex (same order as the model driver)
 // thr is informational here: __RECINT_THRESHOLD_KARA is whatever the headers define.
+// Arguments are non-negative hex numbers ("0x..") or decimal numbers with an optional sign.
+// Build with -DC06_PART=1 (add/sub/mul/bit/shift families) or -DC06_PART=2 (division, gcd, modular, conversions,
+// signed); without C06_PART both parts are compiled into one binary.
 #include <iostream>
 #include <sstream>
 #include <string>
 #include <vector>
 #include <cstring>
+#include <cstdint>
 #include <gmp.h>
+#include <gmpxx.h>
 #include <recint/recint.h>
 
-using namespace RecInt;
+#ifndef C06_PART
+#define C06_PART 0
+#endif
+
+using RecInt::ruint;
+using RecInt::limb;
+typedef std::vector<mpz_t*> Args;
 
 template <size_t K> static void from_mpz(ruint<K>& x, const mpz_t z) {
-    // little-endian limbs, truncated to 2^K bits (two's complement for negative z is not needed: inputs >= 0)
-    const size_t n = NBLIMB<K>::value;
+    // little-endian limbs of |z| truncated to 2^K bits, two's complement when z < 0 (harness-side, no RecInt code)
+    const size_t n = RecInt::NBLIMB<K>::value;
     limb* p = reinterpret_cast<limb*>(&x);
     for (size_t i = 0; i < n; ++i) p[i] = (i < mpz_size(z)) ? mpz_getlimbn(z, i) : 0;
+    if (mpz_sgn(z) < 0) {
+        limb c = 1;
+        for (size_t i = 0; i < n; ++i) { p[i] = ~p[i] + c; c = (c && p[i] == 0); }
+    }
 }
 template <size_t K> static std::string to_hex(const ruint<K>& x) {
-    const size_t n = NBLIMB<K>::value;
+    const size_t n = RecInt::NBLIMB<K>::value;
     const limb* p = reinterpret_cast<const limb*>(&x);
     mpz_t z; mpz_init(z);
     mpz_import(z, n, -1, sizeof(limb), 0, 0, p);
@@ -26,81 +41,414 @@ template <size_t K> static std::string to_hex(const ruint<K>& x) {
     std::string r(s); free(s); mpz_clear(z);
     return r;
 }
+template <size_t K> static std::string to_hex(const RecInt::rint<K>& x) { return to_hex(x.Value); }
+static std::string hex64(uint64_t w) { std::ostringstream o; o << std::hex << w; return o.str(); }
+static std::string mpz_dec(const mpz_class& z) { return z.get_str(10); }
 
 template <size_t K> static void garbage(ruint<K>& x) {   // destinations start from a non-zero pattern
     memset(static_cast<void*>(&x), 0xA5, sizeof(x));
 }
+template <size_t K> static void garbage(RecInt::rint<K>& x) { garbage(x.Value); }
+static uint64_t word(const Args& a, size_t i) {
+    return (a.size() > i && mpz_size(*a[i]) > 0) ? mpz_getlimbn(*a[i], 0) : 0;
+}
+static int sgn3(int s) { return s < 0 ? -1 : s > 0 ? 1 : 0; }
 
-template <size_t K> struct Run {
-    static std::string go(const std::string& v, std::vector<mpz_t*>& a) {
-        ruint<K> x, y, z, r, r2; bool c = false; std::ostringstream o;
+// ruint<K>(const char*): ruint<6> declares it but the library never defines it (link error), so K = 6 is not callable
+template <size_t K> struct FromStr { static std::string go(const char* s) { ruint<K> t(s); return to_hex(t); } };
+template <> struct FromStr<6> { static std::string go(const char*) { return "NOT-CALLABLE"; } };
+
+#define V(name) else if (v == name)
+#define OUT1(x) o << to_hex(x)
+#define OUT2(x, c) o << to_hex(x) << " " << (c)
+
+// ------------------------------------------------------------------------------------------------ part 1
+template <size_t K> struct Run1 {
+    static bool go(const std::string& v, Args& a, std::ostringstream& o) {
+        using namespace RecInt;
+        ruint<K> x, y, z, r, r2; bool c = false;
         garbage(r); garbage(r2);
         if (a.size() > 0) from_mpz(x, *a[0]);
         if (a.size() > 1) from_mpz(y, *a[1]);
         if (a.size() > 2) from_mpz(z, *a[2]);
-        limb w1 = a.size() > 1 ? mpz_getlimbn(*a[1], 0) * (mpz_size(*a[1]) > 0) : 0;
+        limb w1 = word(a, 1);
         bool cy = a.size() > 2 && mpz_sgn(*a[2]) != 0;
+        if (false) {}
         // ---- add family
-        if (v == "add.rabc") { add(c, r, x, y); o << to_hex(r) << " " << c; }
-        else if (v == "add.rab") { r = x; add(c, r, y); o << to_hex(r) << " " << c; }
-        else if (v == "add.abc") { add(r, x, y); o << to_hex(r); }
-        else if (v == "add.ab") { r = x; add(r, y); o << to_hex(r); }
-        else if (v == "add.op+") { r = x + y; o << to_hex(r); }
-        else if (v == "add.op+=") { r = x; r += y; o << to_hex(r); }
-        else if (v == "add.alias") { r = x; add(c, r, r, y); o << to_hex(r) << " " << c; }
-        else if (v == "add_wc.rabc") { add_wc(c, r, x, y, cy); o << to_hex(r) << " " << c; }
-        else if (v == "add_wc.rab") { r = x; add_wc(c, r, y, cy); o << to_hex(r) << " " << c; }
-        else if (v == "add_wc.abc") { add_wc(r, x, y, cy); o << to_hex(r); }
-        else if (v == "add_wc.ab") { r = x; add_wc(r, y, cy); o << to_hex(r); }
-        else if (v == "add_w.rabc") { add(c, r, x, w1); o << to_hex(r) << " " << c; }
-        else if (v == "add_w.rab") { r = x; add(c, r, w1); o << to_hex(r) << " " << c; }
-        else if (v == "add_w.abc") { add(r, x, w1); o << to_hex(r); }
-        else if (v == "add_w.ab") { r = x; add(r, w1); o << to_hex(r); }
-        else if (v == "add_w.op+") { r = x + w1; o << to_hex(r); }
-        else if (v == "add_1.ra") { r = x; add_1(c, r); o << to_hex(r) << " " << c; }
-        else if (v == "add_1.rab") { add_1(c, r, x); o << to_hex(r) << " " << c; }
-        else if (v == "add_1.a") { r = x; add_1(r); o << to_hex(r); }
-        else if (v == "add_1.ab") { add_1(r, x); o << to_hex(r); }
-        else if (v == "add_1.op++") { r = x; ++r; o << to_hex(r); }
+        V("add.rabc") { add(c, r, x, y); OUT2(r, c); }
+        V("add.rab") { r = x; add(c, r, y); OUT2(r, c); }
+        V("add.abc") { add(r, x, y); OUT1(r); }
+        V("add.ab") { r = x; add(r, y); OUT1(r); }
+        V("add.op+") { r = x + y; OUT1(r); }
+        V("add.op+=") { r = x; r += y; OUT1(r); }
+        V("add.alias") { r = x; add(c, r, r, y); OUT2(r, c); }
+        V("add.alias2") { r = y; add(c, r, x, r); OUT2(r, c); }
+        V("add_wc.rabc") { add_wc(c, r, x, y, cy); OUT2(r, c); }
+        V("add_wc.rab") { r = x; add_wc(c, r, y, cy); OUT2(r, c); }
+        V("add_wc.abc") { add_wc(r, x, y, cy); OUT1(r); }
+        V("add_wc.ab") { r = x; add_wc(r, y, cy); OUT1(r); }
+        V("add_w.rabc") { add(c, r, x, w1); OUT2(r, c); }
+        V("add_w.rab") { r = x; add(c, r, w1); OUT2(r, c); }
+        V("add_w.abc") { add(r, x, w1); OUT1(r); }
+        V("add_w.ab") { r = x; add(r, w1); OUT1(r); }
+        V("add_w.op+") { r = x + w1; OUT1(r); }
+        V("add_w.op+r") { r = w1 + x; OUT1(r); }
+        V("add_w.op+=") { r = x; r += w1; OUT1(r); }
+        V("add_w.u32") { r = x + (unsigned int)w1; OUT1(r); }
+        V("add_w.int") { r = x + (long)w1; OUT1(r); }                       // 0 <= w1 < 2^63
+        V("add_w.op-neg") { r = x - (-(long)w1); OUT1(r); }                 // x - (negative) = x + w1
+        V("add_w.op-=neg") { r = x; r -= (-(long)w1); OUT1(r); }
+        V("add_1.ra") { r = x; add_1(c, r); OUT2(r, c); }
+        V("add_1.rab") { add_1(c, r, x); OUT2(r, c); }
+        V("add_1.a") { r = x; add_1(r); OUT1(r); }
+        V("add_1.ab") { add_1(r, x); OUT1(r); }
+        V("add_1.op++") { r = x; ++r; OUT1(r); }
+        V("add_1.op++post") { r = x; r2 = r++; if (r2 != x) o << "POSTINC-VALUE "; OUT1(r); }
         // ---- sub family
-        else if (v == "sub.rabc") { sub(c, r, x, y); o << to_hex(r) << " " << c; }
-        else if (v == "sub.rab") { r = x; sub(c, r, y); o << to_hex(r) << " " << c; }
-        else if (v == "sub.abc") { sub(r, x, y); o << to_hex(r); }
-        else if (v == "sub.ab") { r = x; sub(r, y); o << to_hex(r); }
-        else if (v == "sub.op-") { r = x - y; o << to_hex(r); }
-        else if (v == "sub.op-=") { r = x; r -= y; o << to_hex(r); }
-        else if (v == "sub_wc.rabc") { sub_wc(c, r, x, y, cy); o << to_hex(r) << " " << c; }
-        else if (v == "sub_wc.rab") { r = x; sub_wc(c, r, y, cy); o << to_hex(r) << " " << c; }
-        else if (v == "sub_wc.abc") { sub_wc(r, x, y, cy); o << to_hex(r); }
-        else if (v == "sub_wc.ab") { r = x; sub_wc(r, y, cy); o << to_hex(r); }
+        V("sub.rabc") { sub(c, r, x, y); OUT2(r, c); }
+        V("sub.rab") { r = x; sub(c, r, y); OUT2(r, c); }
+        V("sub.abc") { sub(r, x, y); OUT1(r); }
+        V("sub.ab") { r = x; sub(r, y); OUT1(r); }
+        V("sub.op-") { r = x - y; OUT1(r); }
+        V("sub.op-=") { r = x; r -= y; OUT1(r); }
+        V("sub.alias") { r = x; sub(c, r, r, y); OUT2(r, c); }
+        V("sub.alias2") { r = y; sub(c, r, x, r); OUT2(r, c); }
+        V("sub_wc.rabc") { sub_wc(c, r, x, y, cy); OUT2(r, c); }
+        V("sub_wc.rab") { r = x; sub_wc(c, r, y, cy); OUT2(r, c); }
+        V("sub_wc.abc") { sub_wc(r, x, y, cy); OUT1(r); }
+        V("sub_wc.ab") { r = x; sub_wc(r, y, cy); OUT1(r); }
+        V("sub_w.rabc") { sub(c, r, x, w1); OUT2(r, c); }
+        V("sub_w.rab") { r = x; sub(c, r, w1); OUT2(r, c); }
+        V("sub_w.abc") { sub(r, x, w1); OUT1(r); }
+        V("sub_w.ab") { r = x; sub(r, w1); OUT1(r); }
+        V("sub_w.op-") { r = x - w1; OUT1(r); }
+        V("sub_w.op-=") { r = x; r -= w1; OUT1(r); }
+        V("sub_w.int") { r = x - (long)w1; OUT1(r); }
+        V("sub_w.op+neg") { r = x + (-(long)w1); OUT1(r); }                 // x + (negative) = x - w1
+        V("sub_w.op+=neg") { r = x; r += (-(long)w1); OUT1(r); }
+        V("rsub_w.op-") { r = w1 - x; OUT1(r); }                            // word - ruint
+        V("sub_1.ra") { r = x; sub_1(c, r); OUT2(r, c); }
+        V("sub_1.rab") { sub_1(c, r, x); OUT2(r, c); }
+        V("sub_1.a") { r = x; sub_1(r); OUT1(r); }
+        V("sub_1.ab") { sub_1(r, x); OUT1(r); }
+        V("sub_1.op--") { r = x; --r; OUT1(r); }
+        V("sub_1.op--post") { r = x; r2 = r--; if (r2 != x) o << "POSTDEC-VALUE "; OUT1(r); }
         // ---- compare
-        else if (v == "cmp.cmp") { int s = cmp(x, y); o << (s < 0 ? -1 : s > 0 ? 1 : 0); }
-        else if (v == "cmp.ops") {
+        V("cmp.cmp") { o << sgn3(cmp(x, y)); }
+        V("cmp.ops") {
             int s = (x < y) ? -1 : (x > y) ? 1 : 0;
             bool ok = ((x == y) == (s == 0)) && ((x != y) == (s != 0)) && ((x <= y) == (s <= 0)) && ((x >= y) == (s >= 0));
             if (!ok) o << "INCONSISTENT"; else o << s;
         }
+        V("cmp_w.u64") {
+            int s = sgn3(cmp(x, w1));
+            bool ok = ((x == w1) == (s == 0)) && ((x != w1) == (s != 0)) && ((x < w1) == (s < 0)) && ((x <= w1) == (s <= 0))
+                   && ((x > w1) == (s > 0)) && ((x >= w1) == (s >= 0)) && ((w1 == x) == (s == 0)) && ((w1 < x) == (s > 0))
+                   && ((w1 > x) == (s < 0)) && ((w1 <= x) == (s >= 0)) && ((w1 >= x) == (s <= 0)) && ((w1 != x) == (s != 0));
+            if (!ok) o << "INCONSISTENT"; else o << s;
+        }
+        V("cmp_w.i64") {   // signed word, the argument is given as a decimal number that fits int64_t
+            long sw = mpz_get_si(*a[1]);
+            int s = sgn3(cmp(x, sw));
+            bool ok = ((x == sw) == (s == 0)) && ((x < sw) == (s < 0)) && ((x > sw) == (s > 0)) && ((sw < x) == (s > 0));
+            if (!ok) o << "INCONSISTENT"; else o << s;
+        }
         // ---- products
-        else if (v == "lmul_naive.hl") { lmul_naive(r2, r, x, y); o << to_hex(r) << " " << to_hex(r2); }
-        else if (v == "lmul_naive.a") { ruint<K+1> p; garbage(p); lmul_naive(p, x, y); o << to_hex(p.Low) << " " << to_hex(p.High); }
-        else if (v == "lmul_kara.hl") { lmul_kara(r2, r, x, y); o << to_hex(r) << " " << to_hex(r2); }
-        else if (v == "lmul_kara.a") { ruint<K+1> p; garbage(p); lmul_kara(p, x, y); o << to_hex(p.Low) << " " << to_hex(p.High); }
-        else if (v == "lmul.hl") { lmul(r2, r, x, y); o << to_hex(r) << " " << to_hex(r2); }
-        else if (v == "lmul.a") { ruint<K+1> p; garbage(p); lmul(p, x, y); o << to_hex(p.Low) << " " << to_hex(p.High); }
-        else if (v == "laddmul.rhl") { laddmul(c, r2, r, x, y, z); o << to_hex(r) << " " << to_hex(r2) << " " << c; }
-        else if (v == "laddmul.hl") { laddmul(r2, r, x, y, z); o << to_hex(r) << " " << to_hex(r2); }
-        else if (v == "laddmul.ra") { ruint<K+1> p; garbage(p); laddmul(c, p, x, y, z); o << to_hex(p.Low) << " " << to_hex(p.High) << " " << c; }
-        else if (v == "laddmul2.rhl") { ruint<K+1> d; from_mpz(d, *a[2]); laddmul(c, r2, r, x, y, d); o << to_hex(r) << " " << to_hex(r2) << " " << c; }
-        else if (v == "laddmul2.ra") { ruint<K+1> d, p; garbage(p); from_mpz(d, *a[2]); laddmul(c, p, x, y, d); o << to_hex(p.Low) << " " << to_hex(p.High) << " " << c; }
-        else if (v == "mul.abc") { mul(r, x, y); o << to_hex(r); }
-        else if (v == "mul.ab") { r = x; mul(r, y); o << to_hex(r); }
-        else if (v == "mul.op*") { r = x * y; o << to_hex(r); }
-        else if (v == "mul.op*=") { r = x; r *= y; o << to_hex(r); }
-        else if (v == "addmul.abc") { r = x; addmul(r, y, z); o << to_hex(r); }
-        else o << "UNKNOWN-VARIANT";
-        return o.str();
+        V("lmul_naive.hl") { lmul_naive(r2, r, x, y); o << to_hex(r) << " " << to_hex(r2); }
+        V("lmul_kara.hl") { lmul_kara(r2, r, x, y); o << to_hex(r) << " " << to_hex(r2); }
+        V("lmul.hl") { lmul(r2, r, x, y); o << to_hex(r) << " " << to_hex(r2); }
+        V("laddmul.rhl") { laddmul(c, r2, r, x, y, z); o << to_hex(r) << " " << to_hex(r2) << " " << c; }
+        V("laddmul.hl") { laddmul(r2, r, x, y, z); o << to_hex(r) << " " << to_hex(r2); }
+        V("mul.abc") { mul(r, x, y); OUT1(r); }
+        V("mul.ab") { r = x; mul(r, y); OUT1(r); }
+        V("mul.op*") { r = x * y; OUT1(r); }
+        V("mul.op*=") { r = x; r *= y; OUT1(r); }
+        V("mul.alias") { r = x; mul(r, r, y); OUT1(r); }
+        V("mul.alias2") { r = y; mul(r, x, r); OUT1(r); }
+        V("mul.self") { r = x; mul(r, r); OUT1(r); }                        // one operand: x*x
+        V("addmul.abc") { r = x; addmul(r, y, z); OUT1(r); }
+        V("addmul_w.abc") { r = x; addmul(r, y, (UDItype)word(a, 2)); OUT1(r); }
+        V("lmul_w.ra") { limb ret = 0xA5A5; lmul(ret, r, x, w1); o << to_hex(r) << " " << hex64(ret); }
+        V("mul_w.abc") { mul(r, x, w1); OUT1(r); }
+        V("mul_w.ab") { r = x; mul(r, w1); OUT1(r); }
+        V("mul_w.op*") { r = x * w1; OUT1(r); }
+        V("mul_w.op*r") { r = w1 * x; OUT1(r); }
+        V("mul_w.op*=") { r = x; r *= w1; OUT1(r); }
+        V("mul_w.u32") { r = x * (unsigned int)w1; OUT1(r); }
+        V("mul_w.int") { r = x * (long)w1; OUT1(r); }
+        V("mulneg_w.op*") { r = x * (-(long)w1); OUT1(r); }                 // -(x*w1)
+        V("mulneg_w.op*r") { r = (-(long)w1) * x; OUT1(r); }
+        V("mulneg_w.op*=") { r = x; r *= (-(long)w1); OUT1(r); }
+        V("square.ab") { square(r, x); OUT1(r); }
+        // ---- bit operations
+        V("lnot.op~") { r = ~x; OUT1(r); }
+        V("neg.op-") { r = -x; OUT1(r); }
+        V("neg.ab") { neg(r, x); OUT1(r); }
+        V("neg.a") { r = x; neg(r); OUT1(r); }
+        V("lor.op|") { r = x | y; OUT1(r); }
+        V("lor.op|=") { r = x; r |= y; OUT1(r); }
+        V("lxor.op^") { r = x ^ y; OUT1(r); }
+        V("lxor.op^=") { r = x; r ^= y; OUT1(r); }
+        V("land.op&") { r = x & y; OUT1(r); }
+        V("land.op&=") { r = x; r &= y; OUT1(r); }
+        V("lor_w.op|") { r = x | w1; OUT1(r); }
+        V("lor_w.op|=") { r = x; r |= w1; OUT1(r); }
+        V("lxor_w.op^") { r = x ^ w1; OUT1(r); }
+        V("lxor_w.op^=") { r = x; r ^= w1; OUT1(r); }
+        V("land_w.op&") { limb t = x & w1; o << hex64(t); }
+        V("land_w.op&=") { r = x; r &= w1; OUT1(r); }
+        V("bits.all") {
+            ruint<K> sh(x), sl(x), mp, on; garbage(mp); garbage(on);
+            set_highest_bit(sh); set_lowest_bit(sl); max_pow_two(mp); fill_with_1(on);
+            o << highest_bit(x) << " " << lowest_bit(x) << " " << to_hex(sh) << " " << to_hex(sl) << " " << to_hex(mp) << " " << to_hex(on);
+        }
+        V("limb.setget") {
+            unsigned idx = (unsigned)word(a, 2);
+            r = x; set_limb(r, w1, idx);
+            o << to_hex(r) << " " << hex64(get_limb(x, idx));
+            if (*get_limb_p(x, idx) != get_limb(x, idx)) o << " LIMBP";
+        }
+        V("manip.all") {   // reset, copy, ms_limb, set_highest_word, set_lowest_word, begin, bool cast, size
+            ruint<K> t; garbage(t); reset(t); ruint<K> u; garbage(u); copy(u, x); copy(u, u);
+            ruint<K> hw(x), lw(x); set_highest_word(hw, w1); set_lowest_word(lw, w1);
+            o << to_hex(t) << " " << to_hex(u) << " " << hex64(ms_limb(x)) << " " << to_hex(hw) << " " << to_hex(lw)
+              << " " << hex64(*begin(x)) << " " << (bool(x) ? 1 : 0) << " " << hex64((uint64_t)x) << " " << x.size();
+        }
+        // ---- shifts
+        V("shl.abc") { left_shift(r, x, w1); OUT1(r); }
+        V("shl.op<<") { r = x << w1; OUT1(r); }
+        V("shl.op<<=") { r = x; r <<= w1; OUT1(r); }
+        V("shl.int") { r = x << (int)w1; OUT1(r); }
+        V("shl.u32") { r = x << (unsigned int)w1; OUT1(r); }
+        V("shl.u16") { r = x << (unsigned short)w1; OUT1(r); }
+        V("shl.u8") { r = x << (unsigned char)w1; OUT1(r); }
+        V("shr.abc") { right_shift(r, x, w1); OUT1(r); }
+        V("shr.op>>") { r = x >> w1; OUT1(r); }
+        V("shr.op>>=") { r = x; r >>= w1; OUT1(r); }
+        V("shr.int") { r = x >> (int)w1; OUT1(r); }
+        V("shr.u32") { r = x >> (unsigned int)w1; OUT1(r); }
+        V("shr.u16") { r = x >> (unsigned short)w1; OUT1(r); }
+        V("shr.u8") { r = x >> (unsigned char)w1; OUT1(r); }
+        V("shr.alias") { r = x; right_shift(r, r, w1); OUT1(r); }           // div() un-normalises in place
+        V("shl1.zab") { left_shift_1(c, r, x); OUT2(r, c); }
+        V("shl1.ab") { left_shift_1(r, x); OUT1(r); }
+        V("shl1.alias") { r = x; left_shift_1(r, r); OUT1(r); }             // lsquare doubles in place
+        V("shr1.zab") { right_shift_1(c, r, x); OUT2(r, c); }
+        V("shr1.ab") { right_shift_1(r, x); OUT1(r); }
+        V("norm.d") { UDItype d = 12345; normalization(d, x); o << hex64(d); }
+        else return false;
+        return true;
+    }
+    // forms that need ruint<K+1>
+    static bool wide(const std::string& v, Args& a, std::ostringstream& o) {
+        using namespace RecInt;
+        ruint<K> x, y, z; bool c = false;
+        if (a.size() > 0) from_mpz(x, *a[0]);
+        if (a.size() > 1) from_mpz(y, *a[1]);
+        if (a.size() > 2) from_mpz(z, *a[2]);
+        ruint<K+1> p; garbage(p);
+        if (false) {}
+        V("lmul_naive.a") { lmul_naive(p, x, y); o << to_hex(p.Low) << " " << to_hex(p.High); }
+        V("lmul_kara.a") { lmul_kara(p, x, y); o << to_hex(p.Low) << " " << to_hex(p.High); }
+        V("lmul.a") { lmul(p, x, y); o << to_hex(p.Low) << " " << to_hex(p.High); }
+        V("laddmul.ra") { laddmul(c, p, x, y, z); o << to_hex(p.Low) << " " << to_hex(p.High) << " " << c; }
+        V("laddmul.a") { laddmul(p, x, y, z); o << to_hex(p.Low) << " " << to_hex(p.High); }
+        V("laddmul2.rhl") { ruint<K+1> d; ruint<K> r, r2; garbage(r); garbage(r2); from_mpz(d, *a[2]); laddmul(c, r2, r, x, y, d); o << to_hex(r) << " " << to_hex(r2) << " " << c; }
+        V("laddmul2.ra") { ruint<K+1> d; from_mpz(d, *a[2]); laddmul(c, p, x, y, d); o << to_hex(p.Low) << " " << to_hex(p.High) << " " << c; }
+        V("lmul_w.a") { lmul(p, x, word(a, 1)); o << to_hex(p.Low) << " " << to_hex(p.High); }
+        V("lsquare.a") { lsquare(p, x); o << to_hex(p.Low) << " " << to_hex(p.High); }
+        V("shl_ext.abd") { left_shift(p, x, word(a, 1)); o << to_hex(p); }
+        else return false;
+        return true;
     }
 };
+
+// ------------------------------------------------------------------------------------------------ part 2
+template <size_t K> struct Run2 {
+    typedef RecInt::rint<K> SI;
+    typedef RecInt::rint<K+1> SI2;
+    static bool go(const std::string& v, Args& a, std::ostringstream& o) {
+        using namespace RecInt;
+        ruint<K> x, y, z, r, r2;
+        garbage(r); garbage(r2);
+        if (a.size() > 0) from_mpz(x, *a[0]);
+        if (a.size() > 1) from_mpz(y, *a[1]);
+        if (a.size() > 2) from_mpz(z, *a[2]);
+        limb w1 = word(a, 1);
+        if (false) {}
+        // ---- division
+        V("div.qrab") { div(r, r2, x, y); o << to_hex(r) << " " << to_hex(r2); }
+        V("div.q") { div_q(r, x, y); OUT1(r); }
+        V("div.r") { div_r(r, x, y); OUT1(r); }
+        V("div.op/") { r = x / y; OUT1(r); }
+        V("div.op/=") { r = x; r /= y; OUT1(r); }
+        V("div.op%") { r = x % y; OUT1(r); }
+        V("div.op%=") { r = x; r %= y; OUT1(r); }
+        V("div.alias") { r = x; r2 = y; div(r, r2, r, r2); o << to_hex(r) << " " << to_hex(r2); }
+        V("div_w.qrab") { limb rr = 0xA5; div(r, rr, x, w1); o << to_hex(r) << " " << hex64(rr); }
+        V("div_w.q") { div_q(r, x, w1); OUT1(r); }
+        V("div_w.r") { limb rr = 0xA5; div_r(rr, x, w1); o << hex64(rr); }
+        V("div_w.op/") { r = x / w1; OUT1(r); }
+        V("div_w.op/=") { r = x; r /= w1; OUT1(r); }
+        V("div_w.op%") { r = x % w1; OUT1(r); }
+        V("div_w.op%=") { r = x; r %= w1; OUT1(r); }
+        V("div_w.int") { r = x / (long)w1; OUT1(r); }
+        V("divneg_w.op/") { r = x / (-(long)w1); OUT1(r); }                 // -(x / w1)
+        V("divneg_w.op/=") { r = x; r /= (-(long)w1); OUT1(r); }
+        V("div21.qr") { div_2_1(r, r2, x, y, z); o << to_hex(r) << " " << to_hex(r2); }
+        V("div32.qrr") {
+            ruint<K> b1, b0, q, r1, r0; garbage(q); garbage(r1); garbage(r0);
+            from_mpz(b1, *a[3]); from_mpz(b0, *a[4]);
+            div_3_2(q, r1, r0, x, y, z, b1, b0);
+            o << to_hex(q) << " " << to_hex(r1) << " " << to_hex(r0);
+        }
+        V("mod_n.ab") { mod_n(r, x, y); OUT1(r); }                          // same size: r = x % y
+        V("mod_n.a") { r = x; mod_n(r, y); OUT1(r); }
+        // ---- gcd, modular inverse, exponentiation, inverse modulo 2^(2^K)
+        V("gcd.abc") { gcd(r, x, y); OUT1(r); }
+        V("gcd.bc") { r = gcd(x, y); OUT1(r); }
+        V("inv_mod.abc") { inv_mod(r, x, y); OUT1(r); }
+        V("bezout_mod.xycd") { bezout_mod(r, r2, x, y); o << to_hex(r) << " " << to_hex(r2); }
+        V("exp_mod.abcn") { exp_mod(r, x, y, z); OUT1(r); }
+        V("exp_mod_w.abcn") { exp_mod(r, x, (uint64_t)w1, z); OUT1(r); }
+        V("exp_mod_w.u32") { exp_mod(r, x, (unsigned int)w1, z); OUT1(r); }
+        V("arazi_qi.ua") { arazi_qi(r, x); OUT1(r); }
+        // ---- conversions to and from GMP integers
+        V("mpz_to_ruint.ab") { mpz_class m(*a[0]); mpz_to_ruint(r, m); OUT1(r); }
+        V("mpz_to_ruint.t") { mpz_t_to_ruint(r, *a[0]); OUT1(r); }
+        V("mpz_to_ruint.str") { char* s = mpz_get_str(NULL, 10, *a[0]); o << FromStr<K>::go(s); free(s); }
+        V("ruint_to_mpz.ab") { mpz_class m(12345); ruint_to_mpz(m, x); o << mpz_dec(m); }
+        V("ruint_to_mpz.t") { mpz_t m; ruint_to_mpz_t(m, x); o << mpz_dec(mpz_class(m)); mpz_clear(m); }
+        V("ruint_to_mpz.round") { mpz_class m; ruint_to_mpz(m, x); mpz_to_ruint(r, m); OUT1(r); }
+        // ---- signed: SI
+        V("s.mpz_to_rint") { SI s; garbage(s); mpz_class m(*a[0]); mpz_to_rint(s, m); OUT1(s); }
+        V("s.mpz_to_rint.t") { SI s; garbage(s); mpz_t_to_rint(s, *a[0]); OUT1(s); }
+        V("s.rint_to_mpz") { SI s(x); mpz_class m(777); rint_to_mpz(m, s); o << mpz_dec(m); }
+        V("s.rint_to_mpz.t") { SI s(x); mpz_t m; rint_to_mpz_t(m, s); o << mpz_dec(mpz_class(m)); mpz_clear(m); }
+        V("s.add.abc") { SI s, b(x), c(y); garbage(s); add(s, b, c); OUT1(s); }
+        V("s.add.rabc") { SI s, b(x), c(y); bool cc; garbage(s); add(cc, s, b, c); OUT2(s, cc); }
+        V("s.add.op+") { SI b(x), c(y); SI s = b + c; OUT1(s); }
+        V("s.add.op+=") { SI s(x), c(y); s += c; OUT1(s); }
+        V("s.add_1.op++") { SI s(x); ++s; OUT1(s); }
+        V("s.sub.abc") { SI s, b(x), c(y); garbage(s); sub(s, b, c); OUT1(s); }
+        V("s.sub.rabc") { SI s, b(x), c(y); bool cc; garbage(s); sub(cc, s, b, c); OUT2(s, cc); }
+        V("s.sub.op-") { SI b(x), c(y); SI s = b - c; OUT1(s); }
+        V("s.sub.op-=") { SI s(x), c(y); s -= c; OUT1(s); }
+        V("s.sub_1.op--") { SI s(x); --s; OUT1(s); }
+        V("s.mul.abc") { SI s, b(x), c(y); garbage(s); mul(s, b, c); OUT1(s); }
+        V("s.mul.ab") { SI s(x), c(y); mul(s, c); OUT1(s); }
+        V("s.mul.op*") { SI b(x), c(y); SI s = b * c; OUT1(s); }
+        V("s.mul.op*=") { SI s(x), c(y); s *= c; OUT1(s); }
+        V("s.addmul.abc") { SI s(x), b(y), c(z); addmul(s, b, c); OUT1(s); }
+        V("s.neg.op-") { SI b(x); SI s = -b; OUT1(s); }
+        // neg(rint&, const rint&) (rfiddling.h:96) does not compile when instantiated: not callable, not covered
+        V("s.neg.a") { SI s(x); neg(s); OUT1(s); }
+        V("s.lnot.op~") { SI b(x); SI s = ~b; OUT1(s); }
+        V("s.lor.op|") { SI b(x), c(y); SI s = b | c; OUT1(s); }
+        V("s.lor.op|=") { SI s(x), c(y); s |= c; OUT1(s); }
+        V("s.lxor.op^") { SI b(x), c(y); SI s = b ^ c; OUT1(s); }
+        V("s.lxor.op^=") { SI s(x), c(y); s ^= c; OUT1(s); }
+        V("s.land.op&") { SI b(x), c(y); SI s = b & c; OUT1(s); }
+        V("s.land.op&=") { SI s(x), c(y); s &= c; OUT1(s); }
+        V("s.shl.op<<") { SI b(x); SI s = b << w1; OUT1(s); }
+        V("s.shl.op<<=") { SI s(x); s <<= w1; OUT1(s); }
+        V("s.shr.op>>") { SI b(x); SI s = b >> w1; OUT1(s); }
+        V("s.shr.op>>=") { SI s(x); s >>= w1; OUT1(s); }
+        V("s.sign") { SI b(x); o << b.isNegative() << " " << b.isPositive(); }
+        V("s.div_q.qab") { SI s, b(x), c(y); garbage(s); div_q(s, b, c); OUT1(s); }
+        V("s.div_q.op/") { SI b(x), c(y); SI s = b / c; OUT1(s); }
+        V("s.div_q.op/=") { SI s(x), c(y); s /= c; OUT1(s); }
+        V("s.div_r.rab") { SI s, b(x), c(y); garbage(s); div_r(s, b, c); OUT1(s); }
+        V("s.div_r.op%") { SI b(x), c(y); SI s = b % c; OUT1(s); }
+        V("s.div_r.op%=") { SI s(x), c(y); s %= c; OUT1(s); }
+        V("s.div_q_w.i64") { long sw = mpz_get_si(*a[1]); SI s, b(x); garbage(s); div_q(s, b, sw); OUT1(s); }
+        V("s.div_q_w.op/") { long sw = mpz_get_si(*a[1]); SI b(x); SI s = b / sw; OUT1(s); }
+        V("s.div_q_w.op/=") { long sw = mpz_get_si(*a[1]); SI s(x); s /= sw; OUT1(s); }
+        V("s.cmp.cmp") { SI b(x), c(y); o << sgn3(cmp(b, c)); }
+        V("s.cmp.ops") {
+            SI b(x), c(y);
+            int s = (b < c) ? -1 : (b > c) ? 1 : 0;
+            bool ok = ((b == c) == (s == 0)) && ((b != c) == (s != 0)) && ((b <= c) == (s <= 0)) && ((b >= c) == (s >= 0));
+            if (!ok) o << "INCONSISTENT"; else o << s;
+        }
+        V("s.cmp_w.i64") {
+            long sw = mpz_get_si(*a[1]); SI b(x);
+            int s = sgn3(cmp(b, sw));
+            bool ok = ((b == sw) == (s == 0)) && ((b != sw) == (s != 0)) && ((b < sw) == (s < 0)) && ((b <= sw) == (s <= 0))
+                   && ((b > sw) == (s > 0)) && ((b >= sw) == (s >= 0)) && ((sw == b) == (s == 0)) && ((sw < b) == (s > 0))
+                   && ((sw > b) == (s < 0)) && ((sw <= b) == (s >= 0)) && ((sw >= b) == (s <= 0)) && ((sw != b) == (s != 0));
+            if (!ok) o << "INCONSISTENT"; else o << s;
+        }
+        V("s.cmp_w.int") { int sw = (int)mpz_get_si(*a[1]); SI b(x); o << sgn3(cmp(b, sw)); }
+        V("s.cmp_w.u64") {
+            SI b(x);
+            int s = sgn3(cmp(b, w1));
+            bool ok = ((b == w1) == (s == 0)) && ((b < w1) == (s < 0)) && ((b > w1) == (s > 0)) && ((w1 < b) == (s > 0));
+            if (!ok) o << "INCONSISTENT"; else o << s;
+        }
+        V("s.ctor.i64") { long sw = mpz_get_si(*a[0]); SI s(sw); OUT1(s); }
+        V("s.ctor.int") { int sw = (int)mpz_get_si(*a[0]); SI s(sw); OUT1(s); }
+        V("u.ctor.i64") { long sw = mpz_get_si(*a[0]); ruint<K> s(sw); OUT1(s); }
+        V("u.ctor.u64") { ruint<K> s((uint64_t)word(a, 0)); OUT1(s); }
+        V("s.add_w.i64") { long sw = mpz_get_si(*a[1]); SI s, b(x); garbage(s); add(s, b, sw); OUT1(s); }
+        V("s.add_w.op+=") { long sw = mpz_get_si(*a[1]); SI s(x); s += sw; OUT1(s); }
+        V("s.add_w.u64") { SI s(x); s += w1; OUT1(s); }
+        V("s.sub_w.i64") { long sw = mpz_get_si(*a[1]); SI s, b(x); garbage(s); sub(s, b, sw); OUT1(s); }
+        V("s.sub_w.op-=") { long sw = mpz_get_si(*a[1]); SI s(x); s -= sw; OUT1(s); }
+        V("s.sub_w.u64") { SI s(x); s -= w1; OUT1(s); }
+        V("s.mul_w.op*") { long sw = mpz_get_si(*a[1]); SI b(x); SI s = b * sw; OUT1(s); }
+        V("s.mul_w.op*r") { long sw = mpz_get_si(*a[1]); SI b(x); SI s = sw * b; OUT1(s); }
+        V("s.mul_w.op*=") { long sw = mpz_get_si(*a[1]); SI s(x); s *= sw; OUT1(s); }
+        V("s.mul_w.abc") { long sw = mpz_get_si(*a[1]); SI s, b(x); garbage(s); mul(s, b, sw); OUT1(s); }
+        V("s.mod_n.a") { SI s(x), n(y); mod_n(s, n); OUT1(s); }
+        V("s.inv_mod") { SI s, b(x), n(y); garbage(s); inv_mod(s, b, n); OUT1(s); }
+        else return false;
+        return true;
+    }
+    static bool wide(const std::string& v, Args& a, std::ostringstream& o) {
+        using namespace RecInt;
+        ruint<K> x, y, r; garbage(r);
+        if (a.size() > 0) from_mpz(x, *a[0]);
+        if (a.size() > 1) from_mpz(y, *a[1]);
+        if (false) {}
+        V("mod_n.abn") { ruint<K+1> b; from_mpz(b, *a[0]); mod_n(r, b, y); OUT1(r); }
+        V("s.lmul.a") { SI b(x), c(y); SI2 p; garbage(p); lmul(p, b, c); OUT1(p); }
+        V("s.lsquare.a") { SI b(x); SI2 p; garbage(p); lsquare(p, b); OUT1(p); }
+        V("s.sext") { SI b(x); SI2 p(b); OUT1(p); }
+        V("s.mod_n.abn") { SI2 b; from_mpz(b.Value, *a[0]); SI s, n(y); garbage(s); mod_n(s, b, n); OUT1(s); }
+        else return false;
+        return true;
+    }
+};
+
+template <size_t K, bool WIDE> struct Wide {
+    static bool go(const std::string& v, Args& a, std::ostringstream& o) {
+        bool done = false;
+#if C06_PART == 0 || C06_PART == 1
+        if (!done) done = Run1<K>::wide(v, a, o);
+#endif
+#if C06_PART == 0 || C06_PART == 2
+        if (!done) done = Run2<K>::wide(v, a, o);
+#endif
+        return done;
+    }
+};
+template <size_t K> struct Wide<K, false> {
+    static bool go(const std::string&, Args&, std::ostringstream&) { return false; }
+};
+template <size_t K, bool WIDE> static std::string run(const std::string& v, Args& a) {
+    std::ostringstream o;
+    bool done = false;
+#if C06_PART == 0 || C06_PART == 1
+    if (!done) done = Run1<K>::go(v, a, o);
+#endif
+#if C06_PART == 0 || C06_PART == 2
+    if (!done) done = Run2<K>::go(v, a, o);
+#endif
+    if (!done) done = Wide<K, WIDE>::go(v, a, o);
+    if (!done) return "UNKNOWN-VARIANT";
+    return o.str();
+}
 
 int main() {
     std::string line;
@@ -109,24 +457,26 @@ int main() {
         std::istringstream is(line);
         std::string v; int K, thr; is >> v >> K >> thr;
         if (!is) continue;
-        std::vector<mpz_t*> a; std::string t;
+        Args a; std::string t;
         while (is >> t) {
             mpz_t* z = new mpz_t[1]; mpz_init(*z);
             const char* s = t.c_str();
-            if (t.size() > 2 && t[0] == '0' && t[1] == 'x') mpz_set_str(*z, s + 2, 16); else mpz_set_str(*z, s, 10);
+            if (t.size() > 2 && t[0] == '0' && t[1] == 'x') mpz_set_str(*z, s + 2, 16);
+            else if (t.size() > 3 && t[0] == '-' && t[1] == '0' && t[2] == 'x') { mpz_set_str(*z, s + 3, 16); mpz_neg(*z, *z); }
+            else mpz_set_str(*z, s, 10);
             a.push_back(z);
         }
         std::string r;
         switch (K) {
-            case 6: r = Run<6>::go(v, a); break;
-            case 7: r = Run<7>::go(v, a); break;
-            case 8: r = Run<8>::go(v, a); break;
-            case 9: r = Run<9>::go(v, a); break;
-            case 10: r = Run<10>::go(v, a); break;
-            case 11: r = Run<11>::go(v, a); break;
+            case 6: r = run<6, true>(v, a); break;
+            case 7: r = run<7, true>(v, a); break;
+            case 8: r = run<8, true>(v, a); break;
+            case 9: r = run<9, true>(v, a); break;
+            case 10: r = run<10, true>(v, a); break;
+            case 11: r = run<11, false>(v, a); break;     // forms that need ruint<12> are covered up to K = 10
             default: r = "BAD-K";
         }
-        std::cout << r << "\n";
+        std::cout << r << std::endl;
         for (auto z : a) { mpz_clear(*z); delete[] z; }
     }
     return 0;
